@@ -244,6 +244,10 @@ def run(ctx):
         okm = tp is not None and tp[1] == ("SREP", "MIDP") and any("read_u64" in d for d in tp[2])
         le = [t for bb, t in pfn.calls() if callee_name(t["fn"].get("path", "")) == "read_u64"]
         okle = bool(le) and all(any("LittleEndian" in s for s in t["fn"].get("substs", [])) for t in le)
+        if tp is not None and tp[1] == ("SREP", "MIDP") and not okm:
+            # the std form of the same read: u64::from_le_bytes(first 8 bytes)
+            std = [x for x in values.subterms(mt) if is_call(x) and callee_name(x[1]) == "from_le_bytes"]
+            okm = okle = bool(std) and all("u64" in x[1] for x in std) and any("from_le_bytes" in d for d in tp[2])
         ctx.check("unit-agreement", "midpoint-is-le-u64-of-SREP.MIDP", okm and okle, "midpoint = read_u64::<LittleEndian>(SREP.MIDP)",
                   "client midpoint is %s" % fmt(mt), ctx.loc(pfn))
     nts = 0
